@@ -81,6 +81,7 @@ pub struct ExploreOut {
     pub by_k: HashMap<usize, u64>,
     pub determinism_reruns: u64,
     pub wall_s: f64,
+    pub found_per_key: HashMap<(&'static str, String, String), u64>,
 }
 
 struct Shared<'a> {
@@ -273,12 +274,20 @@ fn worker(sh: &Shared) {
             for v in viols {
                 if v.prop == "MACHINERY" {
                     o.machinery.push(format!("scenario {}: {} {}", scn.name, v.kind, v.detail));
-                } else if o.found.len() < 4000 {
-                    o.found.push(Found {
-                        scenario: scn.clone(),
-                        devs: devs.clone(),
-                        violation: v,
-                    });
+                } else {
+                    // keep every distinct (property, kind, scenario class) - capped per key, never
+                    // globally, so that a flood of one kind cannot crowd out another
+                    let class = scn.name.split(':').next().unwrap_or("").to_owned();
+                    let key = (v.prop, v.kind.clone(), class);
+                    let n = o.found_per_key.entry(key).or_insert(0);
+                    *n += 1;
+                    if *n <= 25 {
+                        o.found.push(Found {
+                            scenario: scn.clone(),
+                            devs: devs.clone(),
+                            violation: v,
+                        });
+                    }
                 }
             }
         }
